@@ -57,8 +57,16 @@ JudgeJoin(rec) ==
     LET h0s == [k \in 1..Len(rec.headers) |-> rec.headers[k][1]]
         h1s == [k \in 1..Len(rec.headers) |-> rec.headers[k][2]]
         msk == rec.masked = 1
-        badt == {k \in 1..4 : LET res == rec.res[JoinTypes[k]] IN
-                    res.out # "ok" \/ ~IsJoin(JoinTypes[k], rec.A, rec.B, h0s, h1s, msk, res)}
+        \* the compiled (secure) join may abort with an error (hash failure, negligible probability) but never
+        \* returns a wrong table; the plaintext join must return the table
+        mayAbort == rec.compiled = 1
+        \* join types whose outcome or content is wrong; join types whose only fault is the column order
+        badc == {k \in 1..4 : LET res == rec.res[JoinTypes[k]] IN
+                    IF res.out = "ok" THEN ~JoinContentOK(JoinTypes[k], rec.A, rec.B, h0s, h1s, msk, res)
+                    ELSE ~(mayAbort /\ res.out = "err")}
+        bado == {k \in 1..4 : LET res == rec.res[JoinTypes[k]] IN
+                    res.out = "ok" /\ k \notin badc /\ ~ColumnOrderOK(rec.A, rec.B, h1s, res)}
+        badt == IF badc # {} THEN badc ELSE bado
     IN IF badt = {} THEN TRUE
        ELSE LET k == CHOOSE kk \in badt : \A k2 \in badt : kk <= k2
                 res == rec.res[JoinTypes[k]]
